@@ -124,25 +124,31 @@ def elem_constraint(sp, i_sym, elem, table):
     return AND(*cs)
 
 
-def run_replace(ctx, p):
-    """builds structure/patterns/stub, calls the real replace_pattern_in_structure; returns a record"""
+def run_replace(ctx, p, given=None, tag=''):
+    """builds structure/patterns/stub, calls the real replace_pattern_in_structure; returns a record.
+    given=(structure, spec): continue from an existing (symbolic) state instead of building one"""
     srch_d, repl_d = PATTERNS[p['pattern']]
-    N, M = p['N'], p['M']
+    M = p['M']
     M_mod = ctx.ms.mofun
     rows = p.get('s_rows', {})
-    st, sp = build_state(ctx, 's', N, terms=p.get('terms'), coeff_rows=rows, atom_rows=3, elements=list(ELEMS),
-                         pair_coeffs=p.get('s_pair', True), cell=np.diag([20., 21., 22.]),
-                         extra=p.get('extra'))
+    if given is None:
+        N = p['N']
+        st, sp = build_state(ctx, 's', N, terms=p.get('terms'), coeff_rows=rows, atom_rows=3, elements=list(ELEMS),
+                             pair_coeffs=p.get('s_pair', True), cell=np.diag([20., 21., 22.]),
+                             extra=p.get('extra'))
+    else:
+        st, sp = given
+        N = sp.N
     search = make_pattern(ctx, srch_d)
     replace = make_pattern(ctx, repl_d, pair=p.get('p_pair', True))
     n = len(srch_d['el'])
-    idx = [[ctx.int(f"m{m}_{k}", 0, N - 1) for k in range(n)] for m in range(M)]
+    idx = [[ctx.int(f"m{tag}{m}_{k}", 0, N - 1) for k in range(n)] for m in range(M)]
     for m in range(M):
         for k in range(n):
             for k2 in range(k):
                 ctx.assume(idx[m][k] != idx[m][k2])
             with core.nosimplify():
-                c = elem_constraint(sp, idx[m][k], srch_d['el'][k], ELEMS)
+                c = elem_constraint(sp, idx[m][k], srch_d['el'][k], sp.tables['atom']['elements'])
             ctx.assume(c)
     overlap = p.get('overlap', 'disjoint')
     for m in range(M):
@@ -153,7 +159,7 @@ def run_replace(ctx, p):
                         ctx.assume(idx[m][k] != idx[m2][k2])
             else:   # any overlap, but never the same atom group (find reports each group once)
                 ctx.assume(OR(*[AND(*[idx[m][k] != idx[m2][k2] for k2 in range(n)]) for k in range(n)]))
-    mpos = [[[ctx.real(f"mp{m}_{k}{c}", -30, 30) for c in 'xyz'] for k in range(n)] for m in range(M)]
+    mpos = [[[ctx.real(f"mp{tag}{m}_{k}{c}", -30, 30) for c in 'xyz'] for k in range(n)] for m in range(M)]
     calls = []
 
     def find_stub(structure, pattern, **kw):
